@@ -4,6 +4,8 @@ import (
 	"bytes"
 	"testing"
 
+	"pgregory.net/rapid"
+
 	"verif/bridge"
 	"verif/model"
 	"verif/ref"
@@ -182,3 +184,11 @@ func FuzzC20Ownership(f *testing.F) {
 		}
 	})
 }
+
+// Coverage-guided runs of structured (rapid-generated) properties: the fuzz engine mutates rapid's bit stream.
+func FuzzC03RoundTrip(f *testing.F) { f.Fuzz(rapid.MakeFuzz(c03RoundTrip.AsProp())) }
+func FuzzC05Reverse(f *testing.F)   { f.Fuzz(rapid.MakeFuzz(c05Reverse.AsProp())) }
+func FuzzC01RoundTrip(f *testing.F) { f.Fuzz(rapid.MakeFuzz(c01RoundTrip.AsProp())) }
+func FuzzC06Reverse(f *testing.F)   { f.Fuzz(rapid.MakeFuzz(c06Reverse.AsProp())) }
+func FuzzC14Codec(f *testing.F)     { f.Fuzz(rapid.MakeFuzz(c14Codec.AsProp())) }
+func FuzzC13Insert(f *testing.F)    { f.Fuzz(rapid.MakeFuzz(c13Random.AsProp())) }
